@@ -149,12 +149,142 @@ def verify_relational(run):
         except Unsupported as ex_:
             run.add(undecided(f"{fq}/subset", f"outside the verified subset: {ex_}", fn=fq, meta=rp))
 
+# ------------------------------------------------------------------------------------------------ Function.parse (postfix -> tree)
+def verify_function_parse(run):
+    from pyvc.heap import (alloc, HPath, LoopSpec, Contract, Ref, Str, NONE, XR, SeqStr, RefV, SeqV, StrV, Schema, strc, str_distinct, canon, xr2x, x2xr)
+    from pyvc.parsers import split_fn, to_float_ok, to_float_fn
+    from pyvc.hlib import init_heap, emit
+    from pyvc.xreal import X
+    from props import C16
+    src = run.src
+    fq = "term.Function.parse"
+    fn = src.func("term", "Function.parse")
+    run.under_contract("term", "Function.parse", fn)
+    NODE = "Function.Node"
+    # Node fields: the element is identified by the token it was copied from ("" = no element)
+    sc = Schema(src, {f"{NODE}.element": "str", f"{NODE}.variable": "str", f"{NODE}.constant": "num", f"{NODE}.left": f"ref:{NODE}", f"{NODE}.right": f"ref:{NODE}"}, [NODE])
+    H0 = init_heap(sc)
+    el_arity = C16.el_arity
+    # ghost (defined once per node when it is created; c = number of nodes created before): the node's postfix print covers the node-creating
+    # tokens [gs, ge); wfn(node) = its children are exactly the operands that precede it in postfix order (left before right)
+    gs, ge = z3.Function("gs", Ref, z3.IntSort()), z3.Function("ge", Ref, z3.IntSort())
+    wfn = z3.Function("postfix_ordered", Ref, z3.BoolSort())
+    nT = z3.Function("nT", z3.IntSort(), z3.IntSort())
+    jS = z3.Int("j*")
+    EMPTY = strc("")
+
+    class NodeCtor(Contract):
+        modifies = tuple(sc.fields)
+
+        def call(s, ex, p, recv, args, kwargs, node):
+            r = ex.allocate(p, "node")
+            a = dict(zip(["element", "variable", "constant", "left", "right"], args)); a.update(kwargs)
+            H = p.heap
+            p.heap = dict(H)
+            el = a.get("element")
+            p.heap[f"{NODE}.element"] = z3.Store(H[f"{NODE}.element"], r, el.tok if isinstance(el, C16.ElemV) else EMPTY)
+            p.heap[f"{NODE}.variable"] = z3.Store(H[f"{NODE}.variable"], r, ex.unwrap("str", a.get("variable", "")))
+            c = a.get("constant")
+            p.heap[f"{NODE}.constant"] = z3.Store(H[f"{NODE}.constant"], r, x2xr(ex.num(c, node).x) if c is not None else x2xr(xr.const(float("nan"))))
+            p.heap[f"{NODE}.left"] = z3.Store(H[f"{NODE}.left"], r, NONE)
+            p.heap[f"{NODE}.right"] = z3.Store(H[f"{NODE}.right"], r, NONE)
+            ex.writes |= set(s.modifies)
+            p.env["__newnode__"] = (r, el.tok if isinstance(el, C16.ElemV) else None)
+            return RefV(r, NODE)
+
+    class ParseExec(C16.InfixExec):
+        def ev_Attribute(s, p, e):
+            if isinstance(e.value, ast.Name) and isinstance(p.env.get(e.value.id), C16.ElemV) and e.attr == "arity":
+                el = p.env[e.value.id]
+                s.oblige(f"safety/line{e.lineno - s.fn_line}:attribute `arity` of None", p, C16.is_elem(el.tok))
+                return Num(X(xr.F, xr.I0, z3.ToReal(el_arity(el.tok))), False, True, True)
+            return super().ev_Attribute(p, e)
+
+        def ev_Call(s, p, e):
+            t = ast.unparse(e.func)
+            if t == "cls.infix_to_postfix":            # its own contract (proved above): some text, or SyntaxError
+                q = p.fork(); s.raised.append((q, "SyntaxError"))
+                return StrV(s.fresh(Str, "postfix"))
+            if t == "Function.Node":
+                return NodeCtor().call(s, p, None, [s.ev(p, a) for a in e.args], {k.arg: s.ev(p, k.value) for k in e.keywords}, e)
+            if t == "factory.copy" and p.env.get("factory") == "FUNCTION_FACTORY":     # CloningFactory.copy: ValueError when the key is not registered
+                tok = s.unwrap("str", s.ev(p, e.args[0]))
+                q = p.fork(); q.pc.append(z3.Not(C16.is_elem(tok))); s.raised.append((q, "ValueError"))
+                p.pc.append(C16.is_elem(tok))
+                return C16.ElemV(tok)
+            if t == "to_float" and len(e.args) == 1:
+                v = s.ev(p, e.args[0])
+                if isinstance(v, StrV):
+                    q = p.fork(); q.pc.append(z3.Not(to_float_ok(v.t))); s.raised.append((q, "ValueError"))
+                    p.pc += [to_float_ok(v.t), canon(to_float_fn(v.t))]
+                    return Num(xr2x(to_float_fn(v.t)), False, True)
+            return super().ev_Call(p, e)
+
+    def tile(stack, ls, j, k, now):
+        x = stack[j]
+        return z3.Implies(z3.And(j >= 0, j < ls), z3.And(x != NONE, alloc(x) < now, wfn(x), gs(x) < ge(x), gs(x) >= 0, z3.Implies(j == 0, gs(x) == 0),
+                                                        ge(x) == z3.If(j + 1 < ls, gs(stack[j + 1]), nT(k))))
+
+    def inv(ex_, p, k, seq):
+        stack = ex_.local(p, "stack").q
+        ls = z3.Length(stack)
+        return z3.And(tile(stack, ls, jS, k, ex_.now(p)), nT(k) >= 0, z3.Implies(ls == 0, nT(k) == 0))
+
+    def inst(ex_, p, k, seq):
+        stack = ex_.local(p, "stack").q
+        ls = z3.Length(stack)
+        return [tile(stack, ls, j, k, ex_.now(p)) for j in (ls - 1, ls - 2, ls - 3, jS + 1, jS - 1)]
+
+    def ghost(ex_, q, k, seq):
+        if "__newnode__" not in q.env:
+            return [nT(k + 1) == nT(k)]
+        r, tok = q.env["__newnode__"]
+        L, R = q.heap[f"{NODE}.left"][r], q.heap[f"{NODE}.right"][r]
+        c = nT(k)
+        ar = el_arity(tok) if tok is not None else z3.IntVal(0)
+        child = z3.If(L != NONE, L, R)
+        return [nT(k + 1) == c + 1, ge(r) == c + 1,
+                gs(r) == z3.If(ar == 2, gs(L), z3.If(ar == 1, gs(child), c)),
+                wfn(r) == z3.If(ar == 2, z3.And(L != NONE, R != NONE, wfn(L), wfn(R), ge(L) == gs(R), ge(R) == c),
+                                z3.If(ar == 1, z3.And(child != NONE, z3.Or(L == NONE, R == NONE), wfn(child), ge(child) == c), z3.And(L == NONE, R == NONE)))]
+
+    # arities of the registered elements are 0, 1 or 2 (read from the source of both factory tables)
+    rows = read_elements(src, "FunctionFactory._create_operators")[1] + read_elements(src, "FunctionFactory._create_functions")[1]
+    ar_ok = bool(rows) and all(r[2] in (0, 1, 2) for r in rows)
+    run.add(static("factory.FunctionFactory/arities_are_0_1_2", ar_ok, f"arities {sorted({r[2] for r in rows})} over {len(rows)} registered elements", fn="factory.FunctionFactory"))
+    tS = z3.Const("t*", Str)
+    ex = ParseExec(src, "term", sc, contracts={}, interfaces={}, inline=set(),
+                   loops={0: LoopSpec(inv, inst=inst, ghost=ghost, name="loop0.tokens", modifies=set(sc.fields))}, fnname=fq)
+    ex.skolems = [jS, jS + 1, jS - 1]
+    formula = z3.Const("formula", Str)
+    pre = [z3.Not(C16.is_elem(strc(x))) for x in ("(", ")", ",")] + [nT(0) == 0]
+    # instances of the arity fact at the tokens the body inspects are added where `element.arity` is read: here as a quantifier-free schema over the
+    # havocked loop variable is not possible, so the fact is given for every Str through one universally quantified axiom (EPR-style, decidable)
+    t_ = z3.Const("t", Str)
+    pre.append(z3.ForAll([t_], z3.Implies(C16.is_elem(t_), z3.And(el_arity(t_) >= 0, el_arity(t_) <= 2))))
+    outs = ex.run_fn(fn, HPath({"cls": "Function", "formula": StrV(formula)}, pre, H0))
+    emit(run, ex, fq, [], RP_FORM)
+    n_ret = 0
+    for i, (kind, val, q) in enumerate(outs):
+        tag = f"[path{i}]"
+        if kind == "raise":
+            if val not in ("SyntaxError", "ValueError"):
+                run.add(Obl(f"{fq}/raises.no_{val}{tag}", q.pc + str_distinct(), z3.BoolVal(False), fn=fq, meta={"replay": RP_FORM}))
+            continue
+        n_ret += 1
+        r = val.r
+        n = z3.Length(split_fn(q.env["postfix"].t))
+        # success => ONE tree that covers every operand/element token of the postfix text, children in postfix order (left operand first)
+        run.add(Obl(f"{fq}/accepts_only_one_complete_ordered_tree{tag}", q.pc + str_distinct(), z3.And(r != NONE, gs(r) == 0, ge(r) == nT(n), wfn(r)), fn=fq, meta={"replay": RP_FORM}))
+    run.add(static(f"{fq}/returns", n_ret > 0, f"{n_ret} returning path(s)", fn=fq))
+
 
 def build(run):
     run.assume("A-REAL", "A-NP", "A-PY", "A-LIFT", "A-STR", "A-MSG", "A-LOG")
     from props import C16
     plan = [("factory.FunctionFactory._create_operators", verify_table), ("factory.FunctionFactory._create_functions", verify_functions),
-            ("operation.Op.relational", verify_relational), ("term.Function.infix_to_postfix", C16.verify_infix_to_postfix)]
+            ("operation.Op.relational", verify_relational), ("term.Function.infix_to_postfix", C16.verify_infix_to_postfix),
+            ("term.Function.parse", verify_function_parse)]
     for fq, f in plan:
         try:
             f(run)
@@ -162,6 +292,16 @@ def build(run):
             run.add(undecided(f"{fq}/subset", f"outside the verified subset: {ex_}", fn=fq))
         except NotFound as ex_:
             run.add(static(f"{fq}/exists", False, f"function under contract not found: {ex_}", fn=fq))
+    # bounded stand-ins (level B): formulas generated from expression trees against a reference evaluator written from the operator table.
+    # Classes outside what the property states are not demanded: literals in scientific notation with a signed exponent (`1e-3` is split
+    # at the sign by format_infix; the statement's literals are decimal), the postfix print of a literal with more decimals than
+    # settings.decimals (number formatting, A-FMT), and token arrangements that are not one of the listed ill-formed kinds (`x 2 +`).
+    NOT_DEMANDED = ["literal:signed-exponent", "postfix:literal-precision", "accepted-illformed:arrangement"]
+    budget = 200 if run.tier == "quick" else 4000
+    run.bounded("term.Function/formulas_vs_reference_evaluator.runtime", N_, "replay_formulas", [dict(seed=run.seed, budget=budget, skip_classes=NOT_DEMANDED)],
+                bound=f"all ordered operator pairs in every operand position, every function against every operator, every registered element on grids, 3x{budget} random well-typed trees to depth 5, "
+                      "x 3 parenthesis styles x spacings x scalar/array valuations; postfix round trip; 4 ill-formed variants per text; not demanded: " + ", ".join(NOT_DEMANDED))
+    run.bounded("factory.FunctionFactory/registered_table_vs_oracle.runtime", N_, "replay_table", [dict(seed=run.seed)], bound="the 13 operators and 34 functions registered at run time against the oracle table")
 
 
 if __name__ == "__main__":
